@@ -225,6 +225,29 @@ Definition krige_system (m : geomodel) (cf cfr : T -> T) (unbiased : bool) (cond
   let kpos := map (isometrize m) cond in
   (krige_mat cf unbiased cond_err kpos, krige_vecs cfr unbiased kpos (map (isometrize m) tgt)).
 
+(* ---------- krige/base.py: the holder of a model, conditioning positions and the CACHED isometrized positions
+   (Krige._krige_pos).  Operations: model replacement (setter -> set_condition()), in-place change of the held model
+   (nothing is recomputed: the cache is stale until the documented refresh), set_condition() (refresh),
+   set_condition(new positions). *)
+Record holder := mkHolder { h_model : geomodel; h_cond : list (list T); h_kpos : list (list T) }.
+Inductive hop := HSetModel (m : geomodel) | HInPlace (op : gop) | HRefresh | HSetCond (c : list (list T)).
+Definition hinit (m : geomodel) (cond : list (list T)) : holder := mkHolder m cond (map (isometrize m) cond).
+Definition hstep (h : holder) (op : hop) : holder :=
+  match op with
+  | HSetModel m => mkHolder m (h_cond h) (map (isometrize m) (h_cond h))
+  | HInPlace g => match gstep (h_model h) g with
+                  | Some m => mkHolder m (h_cond h) (h_kpos h)
+                  | None => h
+                  end
+  | HRefresh => mkHolder (h_model h) (h_cond h) (map (isometrize (h_model h)) (h_cond h))
+  | HSetCond c => mkHolder (h_model h) c (map (isometrize (h_model h)) c)
+  end.
+Definition hrun (h : holder) (ops : list hop) : holder := fold_left hstep ops h.
+Definition refreshing (op : hop) : bool := match op with HInPlace _ => false | _ => true end.
+(* the system an evaluation hands to the solver: cached conditioning positions, targets isometrized now *)
+Definition holder_system (h : holder) (cf cfr : T -> T) (unbiased : bool) (cond_err : list T) (tgt : list (list T)) :=
+  (krige_mat cf unbiased cond_err (h_kpos h), krige_vecs cfr unbiased (h_kpos h) (map (isometrize (h_model h)) tgt)).
+
 (* ---------- variogram/binning.py standard_bins: max_dist for lat-lon positions *)
 Definition lmin (l : list T) : T := fold_left nmin (tl l) (hd zero l).
 Definition lmax (l : list T) : T := fold_left nmax (tl l) (hd zero l).
@@ -233,6 +256,11 @@ Definition latlon_bins_max_dist (geo_scale : T) (pts : list (list T)) : T :=
   let lo := map (fun k => lmin (map (fun p => aget zero p k) p3)) (seq 0 3) in
   let hi := map (fun k => lmax (map (fun p => aget zero p k) p3)) (seq 0 3) in
   chordal_to_great_circle (dist lo hi) geo_scale /! nlit O 3 0.
+
+(* standard_bins(latlon=True): the maximal edge for each combination of the options; a user-given max_dist is
+   already in the unit of geo_scale and is used as it is *)
+Definition latlon_bins_last_edge (geo_scale : T) (pts : list (list T)) (max_dist : option T) : T :=
+  match max_dist with Some d => d | None => latlon_bins_max_dist geo_scale pts end.
 
 (* the estimator's great-circle distance in the unit of the bins (bin_edges /= geo_scale) *)
 Definition in_bin (lo hi d : T) : bool := nleb O lo d && nltb O d hi.
